@@ -68,6 +68,20 @@ func init() {
 			b.WriteString("]\n")
 		}
 		fmt.Fprintf(&b, "\ndef chunks : List (List Site) := [%s]\n", strings.Join(chunkNames, ", "))
+		var tas []string
+		for k := range s.TagAsserts {
+			tas = append(tas, k)
+		}
+		sort.Strings(tas)
+		b.WriteString("/-- (tag, Go type): type assertions on nodes that were found by their tag -/\ndef tagAsserts : List (String × String) := [")
+		for i, k := range tas {
+			parts := strings.SplitN(k, "|", 2)
+			if i > 0 {
+				b.WriteString(", ")
+			}
+			fmt.Fprintf(&b, "(%s, %s)", c14leanStr(parts[0]), c14leanStr(parts[1]))
+		}
+		b.WriteString("]\n")
 		fmt.Fprintf(&b, "def moduleFuncs : Nat := %d\ndef reachedFuncs : Nat := %d\ndef nilTolerantChains : Nat := %d\n", s.Funcs, s.Reached, s.Tolerant)
 		b.WriteString("end Gedcom.Generated.PartialOps\n")
 		return b.String()
